@@ -26,7 +26,7 @@ MANIFEST = dict(
          "the original, a link shows it, 'leave' is the original; equal file-sets of a field get one destination and "
          "FileSet.copy is called once per distinct file-set of the field (memo lemma); nothing that existed is altered. "
          "C34_total / C34_full — with the model of fileformats' algorithm, existing files and realisable modes, "
-         "whatever the job directory already holds, staging never fails (this needed the repairs 74546108 and 53c1d5b2: "
+         "whatever the job directory already holds, staging never fails (this needed the repairs 0120a492 and 4dfb7ba7: "
          "one clash set shared by the fields, seeded with the directory's entries); C34_save_safe — no staged file bears "
          "a name the engine writes into the job directory later (`_result.pklz`, ...; repair), that write touches nothing else. "
          "Tie: Job.inputs of generated tasks is run on real temp files for every FileSet.CopyMode value and collation, "
